@@ -20,6 +20,10 @@ func init() {
 		Assumptions: []string{"each transfer rule states a fact that holds on normal completion of the instruction (not decided here)"},
 		Run:         runC15,
 		Mutants: []Mutant{
+			{Name: "cow-clone-skipped-when-growing", File: "analysis/facts/nilness/nilness.go", Rule: "R15.4", KeyPart: "state).set::",
+				Old: "\t\ts.cloned = true\n\t\ts.m = slices.Clone(s.m)\n\t}\n\tif num >= len(s.m) {\n\t\ts.m = append(s.m, make([]ValueNilness, num-len(s.m)+1)...)\n\t}\n\ts.m[num] = value\n", New: "\t\ts.cloned = true\n\t\tif num < len(s.m) {\n\t\t\ts.m = slices.Clone(s.m)\n\t\t}\n\t}\n\tif num >= len(s.m) {\n\t\ts.m = append(s.m, make([]ValueNilness, num-len(s.m)+1)...)\n\t}\n\ts.m[num] = value\n"},
+			{Name: "cow-setOuter-writes-shared", File: "analysis/facts/nilness/nilness.go", Rule: "R15.4", KeyPart: "setOuter::writes-only-its-own-copy",
+				Old: "\t\tif num < len(s.m) && s.m[num].Outer == value {\n\t\t\t// Don't clone if the value already matches.\n\t\t\treturn\n\t\t}\n\t\ts.cloned = true\n\t\ts.m = slices.Clone(s.m)\n", New: "\t\tif num < len(s.m) && s.m[num].Outer == value {\n\t\t\t// Don't clone if the value already matches.\n\t\t\treturn\n\t\t}\n\t\tif num < len(s.m) && s.m[num].Outer == 0 {\n\t\t\ts.m[num].Outer = value\n\t\t\treturn\n\t\t}\n\t\ts.cloned = true\n\t\ts.m = slices.Clone(s.m)\n"},
 			{Name: "default-pointer-like-never-nil", File: "analysis/facts/nilness/nilness.go", Rule: "R15.1", KeyPart: "defaultNilness",
 				Old: "\t\t// IsPointerLike handles type parameters with type sets, too.\n\t\treturn ValueNilness{MaybeNil, MaybeNil}", New: "\t\t// IsPointerLike handles type parameters with type sets, too.\n\t\treturn ValueNilness{MaybeNil, NeverNil}"},
 			{Name: "no-fact-means-never-nil", File: "analysis/facts/nilness/nilness.go", Rule: "R15.1", KeyPart: "Result).Nilness",
@@ -365,6 +369,107 @@ func runC15(c *Ctx) {
 		}
 		if n == 0 {
 			c.Undecided("SA4023 no longer branches on the result of (*nilness.Result).Nilness")
+		}
+	})
+	// R15.4: copy-on-write of the per-edge state. The transfer function is run
+	// once per out-edge on the same in-state; a state may write into (or grow)
+	// its slice only after it has taken a private copy. "cloned" without a
+	// clone makes the refinement for one successor overwrite the other's.
+	c.Rule("R15.4", func() {
+		c.Floor("R15.4", 6)
+		nWrites := 0
+		for _, fn := range c.ModuleFuncs() {
+			if FuncPkgPath(fn) != nilnessPkg || fn.Signature.Recv() == nil || !strings.HasSuffix(fn.Signature.Recv().Type().String(), "nilness.state") {
+				continue
+			}
+			isM := IsFieldOf("nilness.state", "m")
+			// writes through s.m: element stores and appends
+			var writes []ssa.Instruction
+			var cloneStores []ssa.Instruction
+			Instrs(fn, false, func(in ssa.Instruction) {
+				switch x := in.(type) {
+				case *ssa.Store:
+					addr := x.Addr
+					for {
+						fa, ok := addr.(*ssa.FieldAddr)
+						if !ok {
+							break
+						}
+						addr = fa.X
+					}
+					if ia, ok := addr.(*ssa.IndexAddr); ok && DerivesLocal(ia.X, isM) {
+						writes = append(writes, x)
+					}
+					if fa, ok := x.Addr.(*ssa.FieldAddr); ok && isM(fa) {
+						fresh := false
+						for v := range BackSlice(x.Val, SliceOpts{NoMemory: true}) {
+							if call, ok := v.(*ssa.Call); ok {
+								switch CalleeName(&call.Call) {
+								case "slices.Clone":
+									fresh = true
+								}
+							}
+							if _, ok := v.(*ssa.MakeSlice); ok && !Derives(x.Val, IsCallResult("builtin.append")) {
+								fresh = true
+							}
+						}
+						if fresh {
+							cloneStores = append(cloneStores, x)
+						}
+					}
+				case *ssa.Call:
+					if IsCallTo(x, "builtin.append") && DerivesLocal(x.Call.Args[0], isM) {
+						writes = append(writes, x)
+					}
+				}
+			})
+			if len(writes) == 0 {
+				continue
+			}
+			c.SawFunc(fn.String())
+			owned := CondEdges(fn, func(cond ssa.Value) (bool, bool) {
+				v, neg := StripNot(cond)
+				if DerivesLocal(v, IsFieldOf("nilness.state", "cloned")) {
+					return true, !neg
+				}
+				return false, false
+			})
+			isClone := func(in ssa.Instruction) bool {
+				for _, x := range cloneStores {
+					if x == in {
+						return true
+					}
+				}
+				return false
+			}
+			for i, w := range writes {
+				nWrites++
+				t, path := PathAvoiding(fn, fn.Blocks[0].Instrs[0], func(in ssa.Instruction) bool { return in == w }, isClone, owned)
+				c.Check(FuncKey(fn)+"::writes-only-its-own-copy#"+itoa(i), w.Pos(), t == nil, "a state may store into or append to its slice only after it took a private copy (s.m = slices.Clone(s.m)) or when it already owns it (s.cloned): the in-state is shared by the transfer runs for all successors; path without a copy: %s", PathString(fn, path))
+			}
+			// cloned is set only together with a clone
+			Instrs(fn, false, func(in ssa.Instruction) {
+				st, ok := in.(*ssa.Store)
+				if !ok || !IsFieldOf("nilness.state", "cloned")(st.Addr) || !isBoolConst(st.Val, true) {
+					return
+				}
+				nWrites++
+				t, path := PathAvoiding(fn, st, func(in ssa.Instruction) bool {
+					if _, isRet := in.(*ssa.Return); isRet {
+						return true
+					}
+					for _, w := range writes {
+						if w == in {
+							return true
+						}
+					}
+					return false
+				}, isClone, nil)
+				c.Check(FuncKey(fn)+"::cloned-flag-implies-clone", st.Pos(), t == nil, "setting s.cloned promises that s.m is private from here on; every path from the flag to the next write or return must take the copy; path: %s", PathString(fn, path))
+			})
+		}
+		if nWrites < 6 {
+			c.Undecided("found only %d copy-on-write sites in nilness.state", nWrites)
 		}
 	})
 }
